@@ -341,6 +341,10 @@ fn main() {
     check.assume("preconditions taken from the crate docs: vertex bone indices refer to existing bones (the parser documents repairing others), bone pivots are not NaN (documented NaN→0 repair), names contain no NUL, texture file names use the parsed convention (count = len+1, non-zero offset; `validate()` rejects count>0 with offset 0), track header counts match the attached key-frame arrays, ANIM metadata is consistent (`validate()`), old-layout skins with <=4 indices are only checked through the typed parser (documented detection heuristic)");
     check.assume("track headers without key frames carry the default interpolation/global-sequence (what the constructors produce)");
 
+    check.set_extra(
+        "chunked_legion_plus",
+        json!("not writable: the public API has no MD21 writer (M2Model::write always emits MD20); counted as 'not writable' per DESIGN, no cases generated"),
+    );
     if let Some(p) = check.replay.clone() {
         replay(&check, &p);
         check.finish();
